@@ -137,8 +137,6 @@ type Gen struct {
 	depth     int
 	maxSeen   int
 	slots     []string
-	subDepth  int
-	unionArm  int
 	aliasSeq  int
 	allowDflt bool
 }
@@ -186,7 +184,7 @@ func (g *Gen) NextKind(kind string) *Stmt {
 	g.scope = nil
 	g.ph = 0
 	g.phStyle = ""
-	g.depth, g.maxSeen, g.subDepth, g.unionArm, g.aliasSeq = 0, 0, 0, 0, 0
+	g.depth, g.maxSeen, g.aliasSeq = 0, 0, 0
 	g.slots = g.slots[:0]
 	if g.o.Placeholders != "none" && g.r.Intn(4) == 0 {
 		switch {
@@ -244,7 +242,7 @@ func (g *Gen) Fragment(tables ...Table) (string, []Literal) {
 	g.feats = map[string]struct{}{}
 	g.scope = append([]Table{}, tables...)
 	g.phStyle = ""
-	g.depth, g.maxSeen, g.subDepth, g.unionArm = 0, 0, 0, 0
+	g.depth, g.maxSeen = 0, 0
 	g.slots = g.slots[:0]
 	g.pushSlot("where")
 	g.boolExpr()
@@ -307,17 +305,10 @@ func (g *Gen) sp() {
 func (g *Gen) pushSlot(s string) { g.slots = append(g.slots, s) }
 func (g *Gen) popSlot()          { g.slots = g.slots[:len(g.slots)-1] }
 func (g *Gen) slot() string {
-	s := "where"
-	if len(g.slots) > 0 {
-		s = g.slots[len(g.slots)-1]
+	if len(g.slots) == 0 {
+		return "where"
 	}
-	if g.unionArm > 0 {
-		s = "union/" + s
-	}
-	if g.subDepth > 0 {
-		s = "sub/" + s
-	}
-	return s
+	return strings.Join(g.slots, "/")
 }
 
 func (g *Gen) addTable(name string) {
